@@ -22,11 +22,18 @@ CLAIMED = {
     "C18": dict(ref="DESIGN.md §3 C18", note=NOTE,
                 text="All initial file contents, size limits and navigation/edit/submit sequences inside the bounds are explored symbolically over the real "
                      "History code in two consecutive sessions and compared with a list model; exhaustive inside the bound, where tests sample one history."),
+    "C06": dict(ref="DESIGN.md §3 C06", note=NOTE,
+                text="Reader.feed with scaled buffer constants is executed against a nondeterministic reader (every cut of every stream inside the bound, "
+                     "every error class) and compared with a stream-split oracle at the end, so that later overwrites of earlier records show; the chunk "
+                     "list is explored over all push/snapshot interleavings with and without --tail."),
+    "C13": dict(ref="DESIGN.md §3 C13", note=NOTE + "; partial: sequential core only, no goroutines, no memory model",
+                text="Snapshot isolation of the chunk list under every sequence of pushes and snapshots, and the ChunkCache's full-chunk-only rule, are decided "
+                     "exhaustively inside the bound; data races and the cancellation protocol of scan are NOT claimed."),
 }
 PENDING = "check not built yet in this session (planned, see DESIGN.md §3)"
 NA = {
-    "C01": PENDING, "C04": PENDING, "C06": PENDING, "C07": PENDING, "C08": PENDING, "C09": PENDING,
-     "C12": PENDING, "C13": PENDING, "C16": PENDING, "C19": PENDING,
+    "C01": PENDING, "C04": PENDING, "C07": PENDING, "C08": PENDING, "C09": PENDING,
+     "C12": PENDING, "C16": PENDING, "C19": PENDING,
     "C14": "terminal modes, child processes, signals and the goroutine/channel render loop are OS effects and schedules, not a bounded computation the SSA→SMT encoder can make symbolic (DESIGN.md §5)",
     "C15": "relation between the whole Terminal state and the byte stream written through tui.Window; thousands of lines of drawing code on uniseg tables with no leaf whose correctness implies the property (DESIGN.md §5)",
     "C17": "option/bind parsing is decided inside Go's regexp engine (a 400-character alternation and regexes compiled from input); a symbolic regexp is out of reach and contract stubs would create unreal states (DESIGN.md §5)",
